@@ -11,6 +11,8 @@ TRUSTED = [
     "by string equality with format!(\"{}\") of the real AST on every generated program of the sub-grammar) and the "
     "tokenizer's operator/blank/word splitting on the plain alphabet (Print/Tokenize.v over regenerated tables, tied at "
     "API level with tokenize_str); harness re-implements peg.rs io_number's contiguity test to label io-numbers",
+    "the export path is run for real: parent vbrush -> export -f -> child vbrush started by the parent, and a fresh vbrush "
+    "with BASH_FUNC_f%% in its environment (process level, function bodies with extended-glob patterns)",
     "outside the Coq model, decided by execution only: here-documents, process substitutions, (( )), for (( )), [[ ]], "
     "quoted/expanding words, the PEG parser itself (parse . print . parse on the real code, AST equality modulo "
     "locations, behaviour of the re-read and of the imported definition, bash as second reader)",
@@ -25,10 +27,11 @@ class Gen:
     """grammar-directed generator of one function definition; records features for classification.
     plain=True restricts to the sub-grammar of Print/Show.v with plain words."""
 
-    def __init__(self, rng, plain=False, size=30, clean=False, runnable=False):
+    def __init__(self, rng, plain=False, size=30, clean=False, runnable=False, extglob=False):
         self.rng = rng
         self.plain = plain
         self.clean = clean     # stay outside every known-finding class
+        self.extglob = extglob     # extended-glob patterns in case items, [[ == ]] operands, parameter expansions
         self.runnable = runnable   # deterministic when run: later pipeline stages consume their input, no jobs/timing
         self.budget = size
         self.feat = set()
@@ -43,6 +46,9 @@ class Gen:
         if self.plain or r < 0.45:
             w = self.pick(["a", "b1", "x=y", "-n", "/t.f", "7", "12", "a.b", "A_z", "%s", "a:b", "k-2", "in", "do", "}x"][:12])
             return "-e" if (w == "-n" and self.runnable) else w
+        if self.extglob and r < 0.52:
+            self.feat.add("extglob")
+            return self.pick(["${x##+([0-9])}", "${1%%@(a|b)}", "${y//?(a)b/Z}", "\"${1#!(a)}\""])
         if r < 0.6:
             return self.pick(["$x", "${x:-d}", "$1", "\"$@\"", "$#"])
         if r < 0.72:
@@ -173,7 +179,11 @@ class Gen:
             self.feat.add("case")
             s = "case %s in " % self.word()
             for _ in range(self.rng.randrange(0, 4)):
-                pats = "|".join(self.pick(["a", "b*", "*", "7", "x=y"]) for _ in range(self.pick([1, 1, 2])))
+                plist = ["a", "b*", "*", "7", "x=y"]
+                if self.extglob:
+                    self.feat.add("extglob")
+                    plist = plist + ["@(start|stop)", "+([0-9])", "!(a|7)", "?(x)a*", "*(ab)"]
+                pats = "|".join(self.pick(plist) for _ in range(self.pick([1, 1, 2])))
                 post = self.pick([";;", ";;", ";&", ";;&"])
                 if self.rng.random() < 0.2:
                     s += "%s) %s " % (pats, post)
@@ -197,6 +207,9 @@ class Gen:
             return ["(( x = 1 + 2 ))", "((x++))", "", "(( y = x << 2 ))"][k]
         if r < 0.96:
             self.feat.add("exttest")
+            if self.extglob and self.rng.random() < 0.6:
+                self.feat.add("extglob")
+                return self.pick(["[[ $1 == +([0-9]) ]]", "[[ $x == @(7|ab) && -n $y ]]", "[[ $y != !(ab) ]]"])
             return self.pick(["[[ -n $x && $y == a* ]]", "[[ a < b || ! -f in ]]", "[[ $x =~ ^a+$ ]]", "[[ ( -z $x ) ]]"])
         self.feat.add("procsub")
         k = self.pick([0, 1, 2])
@@ -378,7 +391,7 @@ def run_group(cmd, env, cwd, timeout):
 
 
 def bash_syntax_ok(src):
-    rc, _, _ = run_group(["/usr/bin/bash", "--norc", "--noprofile", "-n", "-c", src], {"PATH": "/usr/bin:/bin"}, None, 10)
+    rc, _, _ = run_group(["/usr/bin/bash", "--norc", "--noprofile", "-O", "extglob", "-n", "-c", src], {"PATH": "/usr/bin:/bin"}, None, 10)
     return rc == 0
 
 
@@ -386,7 +399,7 @@ def bash_behaviour(src, call, cwd_root, k):
     wd = os.path.join(cwd_root, "w%d" % k)
     os.makedirs(wd, exist_ok=True)
     open(os.path.join(wd, "in"), "w").write("line1\nline2\n")
-    rc, out, err = run_group(["/usr/bin/bash", "--norc", "--noprofile", "-c", src + "\n" + call], {"PATH": "/usr/bin:/bin"}, wd, 10)
+    rc, out, err = run_group(["/usr/bin/bash", "--norc", "--noprofile", "-O", "extglob", "-c", src + "\n" + call], {"PATH": "/usr/bin:/bin"}, wd, 10)
     if rc is None:
         res, syntax = "timeout", False
     else:
@@ -401,6 +414,112 @@ def bash_behaviour(src, call, cwd_root, k):
     import shutil
     shutil.rmtree(wd, ignore_errors=True)
     return norm(res + "".join(files)), syntax
+
+
+EXPORT_WITNESSES = [
+    ('f() { case $1 in @(start|stop)) echo "action:$1" ;; +([0-9])) echo "number:$1" ;; *) echo "other:$1" ;; esac; }', "f stop; f 42; f x"),
+    ('f() { [[ $1 == +([0-9]) ]] && echo num; echo "${1##+([0-9])}" "${2%%@(a|b)}"; }', "f 12ab xa; f q b"),
+    ('f() { for v in "$@"; do case $v in !(a|7)) echo not ;; *) echo is ;; esac; done > o1; cat <o1; }', "f a b 7"),
+    ('f() { echo plain "$1"; }', "f ok"),
+]
+
+
+def sorted_lines(s):
+    return "\n".join(sorted(norm_lines(s).split("\n")))
+
+
+def norm_lines(s):
+    return re.sub(r"line \d+:", "line N:", s)
+
+
+def export_path(ctx, extended, specv):
+    """the real export path: the parent brush exports the function (BASH_FUNC_f%%) to a child brush it starts itself, and a
+    fresh brush gets the same variable in its environment; the child's declare -f text and behaviour must be the parent's"""
+    rng = ctx.rng
+    n = 120 if ctx.quick else 1200
+    if extended:
+        n *= 3
+    cases = [(s, c, frozenset(["extglob"])) for s, c in EXPORT_WITNESSES]
+    for i in range(n):
+        g = Gen(rng, plain=False, size=rng.choice([2, 5, 10]), clean=True, runnable=True, extglob=(i % 4 != 3))
+        src = g.function(rng.choice([1, 2, 3]))
+        if re.search(r"\( \(", src):
+            g.feat.add("nested_subshell")
+        cases.append((src, rng.choice(CALLS), frozenset(g.feat)))
+    root = os.path.join(core.SCRATCH, "c14-export-%d" % os.getpid())
+    os.makedirs(root, exist_ok=True)
+    vb = ctx.vbrush
+
+    def one(k):
+        src, call, feat = cases[k]
+        wd = os.path.join(root, "w%d" % k)
+        os.makedirs(wd, exist_ok=True)
+        open(os.path.join(wd, "in"), "w").write("line1\nline2\n")
+        env = {"PATH": "/usr/bin:/bin", "VB": vb, "HOME": wd}
+        inner = "declare -f f; echo ===B; %s" % call
+        script = "%s\nexport -f f\ndeclare -f f\necho ===B\n%s\necho ===C\n\"$VB\" -c '%s'\n" % (src, call, inner)
+        rc, out, err = run_group([vb, "-c", script], env, wd, 20)
+        res = {"parent_rc": rc, "out": (out or b"").decode("utf-8", "replace"), "err": (err or b"").decode("utf-8", "replace")[-300:]}
+        o = res["out"]
+        if rc is None or "===B" not in o or "===C" not in o:
+            res["shape"] = False
+        else:
+            parent, _, child = o.partition("===C\n")
+            ptext, _, pbeh = parent.partition("===B\n")
+            ctext, _, cbeh = child.partition("===B\n")
+            res.update({"shape": True, "ptext": ptext, "pbeh": pbeh, "ctext": ctext, "cbeh": cbeh})
+            # a fresh shell that finds the function in its environment
+            head, nl, body = ptext.partition("\n")
+            env2 = dict(env)
+            env2["BASH_FUNC_f%%"] = "() " + body.rstrip("\n")
+            rc2, out2, err2 = run_group([vb, "-c", inner], env2, wd, 20)
+            o2 = (out2 or b"").decode("utf-8", "replace")
+            etext, _, ebeh = o2.partition("===B\n")
+            res.update({"etext": etext, "ebeh": ebeh, "err2": (err2 or b"").decode("utf-8", "replace")[-300:]})
+        import shutil
+        shutil.rmtree(wd, ignore_errors=True)
+        return k, res
+    stats = {"cases": 0, "not_defined_in_parent": 0, "child_ok": 0, "env_child_ok": 0, "with_extglob": 0, "in_process_bad": 0}
+    # the same functions through the in-process round trip (parse, print, parse, print, import)
+    for (src, call, feat), line in zip(cases, ctx.impl("c14rt", [[s, ""] for s, _, _ in cases])):
+        f = core.dec_line(line) if not line.startswith(("PANIC", "DIED", "TIMEOUT")) else ["?"]
+        if f and f[0] not in ("-", "P", "N"):
+            stats["in_process_bad"] += 1
+            kf = classify(feat, f[0])
+            specv.append({"input": {"source": src, "features": sorted(feat)}, "printed": f[1] if len(f) > 1 else "",
+                          "why": "in-process round trip of a function with extended-glob patterns: verdict %s %s" % (f[0], (f[3] if len(f) > 3 else "")[:160]),
+                          **({"known": kf} if kf else {})})
+    with ThreadPoolExecutor(max_workers=8) as ex:
+        results = list(ex.map(one, range(len(cases))))
+    import shutil
+    shutil.rmtree(root, ignore_errors=True)
+    for k, r in results:
+        src, call, feat = cases[k]
+        if not r.get("shape") or not r.get("ptext", "").strip():
+            stats["not_defined_in_parent"] += 1     # the parent itself did not accept / print the function: not a case
+            continue
+        stats["cases"] += 1
+        if "extglob" in feat:
+            stats["with_extglob"] += 1
+        why = []
+        if r["ctext"] != r["ptext"]:
+            why.append("the child started by the parent prints %r for `declare -f f`, the parent %r" % (r["ctext"][:200], r["ptext"][:200]))
+        elif sorted_lines(r["cbeh"]) != sorted_lines(r["pbeh"]):
+            why.append("the exported function behaves differently in the child: %r vs %r in the parent" % (r["cbeh"][:200], r["pbeh"][:200]))
+        else:
+            stats["child_ok"] += 1
+        if r["etext"] != r["ptext"]:
+            why.append("a fresh shell with BASH_FUNC_f%%%% in its environment prints %r for `declare -f f`, the parent %r (stderr %r)"
+                       % (r["etext"][:200], r["ptext"][:200], r.get("err2", "")[-160:]))
+        elif sorted_lines(r["ebeh"]) != sorted_lines(r["pbeh"]):
+            why.append("the function imported from the environment behaves differently: %r vs %r" % (r["ebeh"][:200], r["pbeh"][:200]))
+        else:
+            stats["env_child_ok"] += 1
+        if why:
+            kf = classify(feat, "export")
+            specv.append({"input": {"source": src, "call": call, "features": sorted(feat), "path": "export -f to a child process"},
+                          "printed": r["ptext"], "why": "; ".join(why), **({"known": kf} if kf else {})})
+    return stats, len(cases)
 
 
 def code_round_trip(ctx, extended, specv):
@@ -509,6 +628,7 @@ def run(ctx, extended=False):
     rng = ctx.rng
     mism, specv = [], []
     progs, rt, verdicts, by_feat, unparsed, bash_stats = code_round_trip(ctx, extended, specv)
+    export_stats, export_n = export_path(ctx, extended, specv)
     # ------------------------------------------------------------------ B. printer model == Display on the sub-grammar
     n_plain = 2500 if ctx.quick else 20000
     if extended:
@@ -595,7 +715,7 @@ def run(ctx, extended=False):
         raise core.CheckBroken("extracted runner and vm_compute disagree (case %r)" % ((mcases[xbad[0]] if xbad else tstr[xbad2[0]]),))
 
     return {
-        "evaluations": len(progs) + len(mcases) + len(tstr),
+        "evaluations": len(progs) + len(mcases) + len(tstr) + export_n,
         "distinct_nontrivial": len({s for s, _, f in progs if f}) + len({s for s, f in msrc if f}),
         "rule": "A: function definitions from the full grammar (simple commands with assignments/redirects of every kind, "
                 "pipelines with !/time, and-or, lists with ; and &, brace group, subshell, for with/without in, while/until, "
@@ -610,7 +730,7 @@ def run(ctx, extended=False):
         "distribution": {"verdicts": verdicts, "by_feature_cases_failing": {k: v for k, v in sorted(by_feat.items())},
                          "not_accepted_by_brush": unparsed, "subgrammar_programs": len(mcases), "subgrammar_skipped": skipped,
                          "printed_texts_not_separating": sep_fail, "tokenizer_strings": len(tstr),
-                         "flat_functions_parsed_by_the_parser_model": flat_n},
+                         "flat_functions_parsed_by_the_parser_model": flat_n, "export_to_child_process": export_stats},
         "extraction_crosscheck": {"cases": len(sidx) + len(tidx), "agree": len(sidx) + len(tidx)},
         "spec_vs_bash": bash_stats,
         "model_mismatches": mism,
@@ -629,6 +749,7 @@ def run_code_only(ctx):
     """the Coq development does not build: the property is still decided on the code (part A)"""
     specv = []
     progs, rt, verdicts, by_feat, unparsed, bash_stats = code_round_trip(ctx, True, specv)
-    return {"evaluations": len(progs), "distinct_nontrivial": len({s for s, _, f in progs if f}),
+    export_stats, export_n = export_path(ctx, True, specv)
+    return {"evaluations": len(progs) + export_n, "distinct_nontrivial": len({s for s, _, f in progs if f}),
             "rule": "code only (model did not build): parse/print/parse/print, AST equality, import, behaviour, bash",
             "samples": [], "distribution": {"verdicts": verdicts}, "spec_vs_bash": bash_stats, "spec_violations": specv}
